@@ -25,7 +25,8 @@ out.append(f"\n{sum(1 for r in rows if r[2] == 'CAUGHT')} of {len(rows)} caught.
 res = json.loads((ROOT / "seeded" / "results.json").read_text()) if (ROOT / "seeded" / "results.json").exists() else {}
 out.append("### 14.2 Changes written by independent sub-agents (`seeded/<id>/`)\n")
 out.append("Each sub-agent saw only the property text and a scratch worktree. `a*` = first round, `b*` = second round "
-           "(asked for cooperating edits / carried-over state / unusual environments), `n*` = property-preserving changes "
+           "(asked for cooperating edits / carried-over state / unusual environments), `c*`/`d*`/`e*` = adversarial rounds (asked for triggers a "
+           "generator-plus-reference-model checker is least likely to hit; `e*` also got the list of triggers already used), `n*`/`n2*` = property-preserving changes "
            "(the check must stay quiet).\n")
 out.append("| id | what the change does (from the author's meta) | quick check | caught as | replay on changed tree |")
 out.append("|---|---|---|---|---|")
@@ -50,6 +51,11 @@ out.append("* `C11-d3` needs the caller to change the working directory between 
 out.append("* `C20-d2` needs a non-UTF-8 text encoding of the interpreter (`LC_ALL=C PYTHONUTF8=0 PYTHONCOERCECLOCALE=0`) "
            "and a non-ASCII character in a module. The workloads do contain non-ASCII units, but the interpreter's encoding "
            "is not a simulated dimension (on the pinned tree the same configuration already makes the ROOT file unreadable).")
+out.append("* `C10-e2` needs a registered check that rejects with an `Err` whose payload is falsy (`Err('')`). Checks are typed "
+           "`Result[Nil, FcpError]`; with a string payload the shipped CLI itself crashes in `result.err().results_in(...)`, so the "
+           "stub plug-in stays within the contract and never produces such a check.")
+out.append("* `C19-e3` needs the scheduler to be called from two threads (thread-local static state). The property is about call "
+           "sequences; the generated code, the driver and the property text contain no thread.")
 out.append("* `C10-c3` changes what a plug-in CHECK rejects (`impl <p> for <EnumName>`), not the gate: with it no registered check "
            "rejects any more, so C10 holds as stated; that is C09's verdict specification (not applicable here). Kept as a "
            "property-preserving change: gensim stays quiet.")
